@@ -9,6 +9,11 @@
 //	spec/net/Handshake.tla    gateway handshake: accept iff genesis IDs match and unique IDs differ, as received;
 //	                          every combination of headers and in-flight rewrites is run between real Dial/Accept.
 //	spec/net/KeyExchange.tla  RHP2 key exchange with one region flipped.
+//	spec/net/FrameSizes.tla   the RHP2 frame on sizes: padding rule of the writer, limit of the reader; TLC derives the
+//	                          boundaries of these rules, walks every object length around them with limits on both
+//	                          sides of the declared size and prints what must be on the wire and what the reader must
+//	                          do; sweep.go sends real objects of exactly these lengths over real sessions in all modes.
+//	                          Its EDGE records (distances from a limit) place RHP3/RHP4/gateway messages around theirs.
 //	spec/net/Framing.tla      the arithmetic of a limited reader (model checked);
 //	spec/net/FramingTrace.tla validates what the real readers of gateway/RHP2/RHP3/RHP4 did with every RPC object at
 //	                          its maximal, random, just-fitting and over-limit sizes, and with never-ending peers.
@@ -170,8 +175,15 @@ func rhp4ErrLine(o fobj, code uint8, desc string) fline {
 }
 
 // collectFraming runs the real writers/readers over the catalogue and returns the recorded lines.
+var framingPhases = map[string]float64{}
+
 func collectFraming(c *vlib.Ctx, seed int64, sel framingSel) *frec {
 	rec := newFrec()
+	t0 := time.Now()
+	lap := func(name string) {
+		framingPhases[name] = float64(time.Since(t0).Milliseconds()) / 1000
+		t0 = time.Now()
+	}
 	r := rand.New(rand.NewSource(seed))
 	nRand := c.Pick(6, 120)
 	rec.add(func() fline {
@@ -200,6 +212,7 @@ func collectFraming(c *vlib.Ctx, seed int64, sel framingSel) *frec {
 		})
 	}
 	parallel(6, jobs)
+	lap("rhp4")
 	// RHP2: one fresh session per line
 	jobs = nil
 	for _, o := range rhp2Catalogue() {
@@ -211,6 +224,7 @@ func collectFraming(c *vlib.Ctx, seed int64, sel framingSel) *frec {
 		rhp2Framing(rec, o, rs, c.Pick(2, 12), func(f func()) { jobs = append(jobs, f) })
 	}
 	parallel(12, jobs)
+	lap("rhp2")
 	// RHP3
 	jobs = nil
 	for _, o := range rhp3Catalogue() {
@@ -231,6 +245,7 @@ func collectFraming(c *vlib.Ctx, seed int64, sel framingSel) *frec {
 		})
 	}
 	parallel(8, jobs)
+	lap("rhp3")
 	// gateway
 	jobs = nil
 	for _, g := range gwCatalogue() {
@@ -262,6 +277,7 @@ func collectFraming(c *vlib.Ctx, seed int64, sel framingSel) *frec {
 		jobs = append(jobs, func() { gwVersionHungry(rec) })
 	}
 	parallel(6, jobs)
+	lap("gateway")
 	return rec
 }
 
@@ -381,13 +397,30 @@ func main() {
 		c.Finish()
 	}
 	r := rand.New(rand.NewSource(c.Seed))
+	phases := map[string]float64{}
+	tPhase := time.Now()
+	phase := func(name string) {
+		phases[name] = float64(time.Since(tPhase).Milliseconds()) / 1000
+		tPhase = time.Now()
+	}
 	c.Rule("Sessions: TLC enumerates every conversation of Session.tla (length ≤ MaxMsgs, frame kinds object/error response, ≤ 2 faults out of lenup/lendn/lenhi/nonce/body/pad/tag/trunc/ext on distinct frames) with the demanded outcome; each replayed case = one schedule on one real RHP2 transport pair in one mode (requests renter→host, responses host→renter, raw responses + VerifyTag); non-trivial = at least one fault, or ≥ 2 frames delivered. Size sweep: TLC (FrameSizes.tla) walks every encoded object length within W bytes of a boundary of the RHP2 framing rules (pad / do not pad; at / above the floor of the reader's limit) and per length the caller's limits on both sides of the declared size; one evaluation = one real object of exactly that length moved over a real transport pair in one mode (request, response, raw response), compared with the demanded wire size, verdict, identity and bytes consumed; distinct = distinct (mode, length, limit); repeats in other orders are not counted as distinct. Handshake: every (genesis, unique id)² × in-flight rewrite of version/genesis/unique id; non-trivial = all. Framing: one line = one real object of a stated shape written by the real writer and read by the real reader (or one never-ending stream, or one error response); non-trivial = distinct (object, shape, limit) lines whose message is not empty.")
 	c.Assume("in-memory net.Pipe pairs with a byte-rewriting proxy stand for the network; deadlines only classify a starved read as 'not delivered'")
 	c.Assume("authentication inside go.sia.tech/mux (gateway, RHP3) is not modelled: there only end-to-end delivery and prefix-safety under a flipped bit are checked")
 	c.Assume("gateway objects have no exported encoder: their wire size is mirrored from the exported encoders of the field types; acceptance is observed on the real stream reader")
+	c.Assume("size sweep: an encoded length is realised by a real RPC object with one free-length byte field (Settings, Data, ArbitraryData, action data, error data/description); other field mixes of the same length are not tried")
 	c.Assume("strict reading of the property: a refused (over-limit) size must also leave the transport closed (Session*.cfg RefusalCloses=TRUE; FALSE is a development switch only)")
 
 	// ---- 1. models -------------------------------------------------------------------------------
+	// the frame-size models run beside the others (independent TLC processes)
+	var sizes map[string]sizeCase
+	var szm *vlib.TLCResult
+	var wgSizes sync.WaitGroup
+	wgSizes.Add(2)
+	go func() {
+		defer wgSizes.Done()
+		szm = c.MustTLC(vlib.TLCOpts{SpecDirs: []string{"net"}, Module: "FrameSizes", Config: "FrameSizesMC.cfg", Workers: 2})
+	}()
+	go func() { defer wgSizes.Done(); sizes = loadSizes(c) }()
 	fm := c.MustTLC(vlib.TLCOpts{SpecDirs: []string{"net"}, Module: "Framing", Config: "Framing.cfg", Workers: 8})
 	c.Cov("framing_model_states", fm.Distinct)
 	sessCfgs := []string{"Session3.cfg"} // ≤ 3 frames, ≤ 2 faults
@@ -413,9 +446,8 @@ func main() {
 		k.Session, _ = m["session"].(bool)
 		return k, k.Region
 	})
-	szm := c.MustTLC(vlib.TLCOpts{SpecDirs: []string{"net"}, Module: "FrameSizes", Config: "FrameSizesMC.cfg", Workers: 4})
+	wgSizes.Wait()
 	c.Cov("frame_size_model_states", szm.Distinct)
-	sizes := loadSizes(c)
 	c.Cov("size_cases_enumerated", len(sizes))
 	c.Cov("limit_slacks_enumerated", edgeSlacks)
 	c.Cov("session_cases_enumerated", len(scheds))
@@ -424,6 +456,7 @@ func main() {
 		c.Fatal("specifications enumerated too few cases: %d schedules, %d handshakes, %d key exchanges", len(scheds), len(hss), len(kxs))
 	}
 
+	phase("models")
 	// ---- 2. sessions on the real transports -------------------------------------------------------
 	var mu sync.Mutex
 	var evals, nontriv int64
@@ -529,8 +562,10 @@ func main() {
 	go func() { defer wgSlow.Done(); parallel(48, slow) }() // these sleep on a deadline
 	parallel(8, fast)
 
+	phase("rhp2_fault_schedules")
 	// size sweep of the RHP2 framing (FrameSizes.tla) over real sessions
 	sw := runSweep(c, sizes, r)
+	phase("rhp2_size_sweep")
 
 	// handshakes
 	hkeys := make([]string, 0, len(hss))
@@ -650,6 +685,7 @@ func main() {
 	parallel(8, cjobs)
 	wgSlow.Wait()
 	c.Traces(evals + sw.sessions)
+	phase("handshakes_keyexchange_conversations")
 
 	// vacuity guards: sessions
 	for _, k := range []string{"lenup", "lendn", "lenhi", "nonce", "body", "pad", "tag", "trunc", "ext"} {
@@ -685,11 +721,15 @@ func main() {
 	// ---- 3. framing ------------------------------------------------------------------------------
 	fseed := r.Int63()
 	rec := collectFraming(c, fseed, framingSel{})
+	phase("framing_collection")
 	rejects := validateFraming(c, rec)
 	judgeFraming(c, rec, rejects, fseed)
 	c.Traces(1)
 	selftest(c, rec, scheds)
 	selftestSizes(c, sizes)
+	phase("framing_validation_selftests")
+	c.Cov("phase_wall_s", phases)
+	c.Cov("framing_collection_wall_s", framingPhases)
 	distinct := map[string]bool{}
 	for _, l := range rec.lines {
 		if enc, _ := l["enc"].(int); l["ev"] == "shape" && enc == 0 {
